@@ -748,7 +748,7 @@ func blame(e *penv, side byte, h []pop, k int) string {
 		return cls
 	}
 	var all []pop
-	first := ""
+	first := "" // non-empty once a reference-rejected delivery was seen
 	for j := 0; j < k; j++ {
 		if h[j].K == 'A' || !full.steps[j].rejected {
 			all = append(all, h[j])
@@ -773,7 +773,7 @@ func blame(e *penv, side byte, h []pop, k int) string {
 	if first != "" {
 		all = append(all, h[k])
 		if r, err := runHistory(e, side, all, nil, false); err == nil && r.violStep < 0 {
-			return first
+			return "several"
 		}
 	}
 	return ""
